@@ -7,6 +7,7 @@ import Hg.Model.Eqv
 import Hg.Model.WF
 import Hg.Model.Immut
 import Hg.Model.Live
+import Hg.Model.Spec
 
 namespace Hg.Proto
 open Hg Hg.Wire
@@ -183,7 +184,10 @@ def step (pool : Pool) (cmd : Json) : Pool × Json :=
       | _, _, _ => (pool, err "bad add")
     | "$iadd", [h1, h2] =>
       match strOf? h1, (strOf? h1).bind pool.get?, (strOf? h2).bind pool.get? with
-      | some h1, some a, some b => let r := iadd a b; (pool.set h1 r.1, outcomeJson r.2)
+      | some h1, some a, some b =>
+        -- the code-order model of `+=`; it must agree with `+` whenever the operands are compatible
+        let r := iaddCode a b
+        (pool.set h1 r.1, if r.2 then .str "$ok" else .str "$raise:container")
       | _, _, _ => (pool, err "bad iadd")
     | "$mul", [hn, h, f] =>
       match strOf? hn, (strOf? h).bind pool.get?, valOf? f with
@@ -235,6 +239,22 @@ def step (pool : Pool) (cmd : Json) : Pool × Json :=
       match (strOf? h).bind pool.get? with
       | some a => (pool, .bool (noBins a))
       | none => (pool, err "no handle")
+    | "$liveok", [h] =>
+      match (strOf? h).bind pool.get? with
+      | some a => (pool, .bool (liveOk a))
+      | none => (pool, err "no handle")
+    | "$inv", [h] =>
+      match (strOf? h).bind pool.get? with
+      | some a => (pool, .bool (inv a))
+      | none => (pool, err "no handle")
+    | "$singlepath", [h] =>
+      match (strOf? h).bind pool.get? with
+      | some a => (pool, .bool (singlePath a))
+      | none => (pool, err "no handle")
+    | "$eqcontent", [h1, h2] =>
+      match (strOf? h1).bind pool.get?, (strOf? h2).bind pool.get? with
+      | some a, some b => (pool, .bool (decide (content a = content b)))
+      | _, _ => (pool, err "bad eqcontent")
     | "$uniform", [h] =>
       match (strOf? h).bind pool.get? with
       | some a => (pool, .bool (uniform a))
